@@ -573,6 +573,51 @@ func init() {
 		return norm(t, types.Uint32)
 	})
 
+	// Tokenized action decoder (envelope + protobuf): an uninterpreted classifier.  Scripts
+	// carrying one of the harness markers classify as the corresponding action (the native
+	// replay builds real scripts of those kinds); every other script is "not Tokenized".
+	reg("github.com/tokenized/specification/dist/golang/protocol.Deserialize", func(fr *frame, args []value) value {
+		script := args[0].([]value)
+		marker := []byte("\x6a\x02\xbd\x01VERIF")
+		kind := byte(0)
+		if len(script) >= len(marker)+2 {
+			ok := true
+			for j, m := range marker {
+				b, isB := script[j].(uint8)
+				if !isB || b != m {
+					ok = false
+					break
+				}
+			}
+			if ok {
+				if b, isB := script[len(marker)].(uint8); isB {
+					kind = b
+				}
+			}
+		}
+		actPkg := fr.i.prog.ImportedPackage("github.com/tokenized/specification/dist/golang/actions")
+		protoPkg := fr.i.prog.ImportedPackage("github.com/tokenized/specification/dist/golang/protocol")
+		mkAction := func(name string) value {
+			tn := actPkg.Type(name)
+			if tn == nil {
+				panic(engineError{"actions." + name + " not found"})
+			}
+			cell := zero(tn.Type())
+			return tuple{iface{t: types.NewPointer(tn.Type()), v: &cell}, iface{}}
+		}
+		fr.i.ex.noteAssumption("protocol.Deserialize is an uninterpreted classifier: harness-marked scripts are ContractFormation / InstrumentCreation / Transfer, all other scripts are not Tokenized")
+		switch kind {
+		case 'C':
+			return mkAction("ContractFormation")
+		case 'I':
+			return mkAction("InstrumentCreation")
+		case 'T':
+			return mkAction("Transfer")
+		}
+		_ = protoPkg
+		return tuple{iface{}, mkError(fr, "Not Tokenized (classifier model)")}
+	})
+
 	registerTime()
 	registerFmt()
 }
